@@ -27,6 +27,7 @@ THEOREMS = [
     "MoreExec.MeFuture.C02_code_callback_pass",
     "MoreExec.MeFuture.C02_code_cancel_whole",
     "MoreExec.MeFuture.C02_code_set_whole",
+    "MoreExec.MeFuture.C02_code_add_whole",
     "MoreExec.MeFuture.C02_code_no_overrides",
 ]
 KERNELS = ["K2", "K16"]
